@@ -24,6 +24,12 @@ import (
 
 // Action is one perturbation: at the Hit-th passage (1-based; 0 = every
 // passage) of Site do Kind.
+//
+// A Site that ends in '*' is a prefix pattern ("guard.go:*", "beacon.go:SortBy*"): it
+// matches every site with that prefix, and Hit counts the passages of ALL matching
+// sites together (in the order the goroutines reach them). Such an action does not
+// depend on the exact statement a site name was derived from, so it also reaches
+// sites that a changed source file introduces.
 type Action struct {
 	Site      string `json:"site"`
 	Hit       int    `json:"hit"`
@@ -39,9 +45,16 @@ type plan struct {
 	order   []string // first-hit order of sites (record mode)
 	record  bool
 	actions map[string][]Action
+	prefix  []*prefixAction
 	events  map[string]chan struct{}
 	fired   []string
 	paused  int32
+}
+
+type prefixAction struct {
+	Action
+	pre  string
+	seen int
 }
 
 var cur atomic.Pointer[plan]
@@ -51,6 +64,10 @@ var cur atomic.Pointer[plan]
 func Activate(actions []Action, record bool) {
 	p := &plan{hits: map[string]int{}, record: record, actions: map[string][]Action{}, events: map[string]chan struct{}{}}
 	for _, a := range actions {
+		if n := len(a.Site); n > 0 && a.Site[n-1] == '*' {
+			p.prefix = append(p.prefix, &prefixAction{Action: a, pre: a.Site[:n-1]})
+			continue
+		}
 		p.actions[a.Site] = append(p.actions[a.Site], a)
 	}
 	cur.Store(p)
@@ -158,6 +175,14 @@ func Point(site string) {
 		if a.Hit == 0 || a.Hit == n {
 			act = a
 			break
+		}
+	}
+	for _, pa := range p.prefix {
+		if len(site) >= len(pa.pre) && site[:len(pa.pre)] == pa.pre {
+			pa.seen++
+			if act == nil && (pa.Hit == 0 || pa.Hit == pa.seen) {
+				act = &pa.Action
+			}
 		}
 	}
 	// passing a site is an event others can wait for
